@@ -23,12 +23,13 @@ META = {
              "an invocation other than the first on a cube with >=2 sub-cubes; distinct by (case hash, mode, plan)"),
     "require": {t: ["mode:serial", "mode:real", "mode:controlled", "plan:empty", "plan:singleton", "plan:multi",
                     "k=1", "k>=12", "cube:ccube", "cube:xcube", "followup:compared", "raised:identity_checked",
-                    "interrupt_class:RuntimeError", "interrupt_class:TimeoutError", "interrupt_class:KeyError",
+                    "interrupt_class:RuntimeError", "interrupt_class:TimeoutError", "interrupt_class:KeyError", "interrupt_class:StopIteration",
                     "k>1024", "callback:class_level", "callback:callable_object_empty_container", "callback:bound_method", "followup:pooled", "cube:shallow_copy_of_the_configured_cube"]
                 for t in ("quick", "thorough")},
     "exhaustive": {t: "every singleton fault plan (every cancellation point) of every generated cube, in each mode"
                    for t in ("quick", "thorough")},
-    "assumptions": ["the callback raises Exception subclasses (a worker-killing BaseException is a hazard of ThreadPool itself)",
+    "assumptions": ["the callback raises Exception subclasses - seven families incl. StopIteration, which a pool's map() would take for the end of its "
+                    "input (a worker-killing BaseException such as KeyboardInterrupt is a hazard of ThreadPool itself)",
                     "tasks still running in pool threads after calculate has raised are counted as evidence only; the "
                     "verdict is on the outcome, the consultation counts and the follow-up evaluation"],
 }
